@@ -899,6 +899,7 @@ def q_parse(env, k_in, k_out, name=None):
         qr.undecided.append(f"from_bytes_impl: {e}")
         return qr
     qr.cases += 1
+    coinbase_tokenised = []
     for r in results:
         qr.paths += 1
         if len(qr.violations) >= MAX_VIOLATIONS:
@@ -930,6 +931,21 @@ def q_parse(env, k_in, k_out, name=None):
                         structural = False
                 if any(s.variant != "None" for s in view.slots):
                     bad_kind = "freshly parsed transaction has a non-empty hash cache"
+                # the data of a coinbase input (null outpoint) is not a script: it must be kept verbatim, never run through the tokenizer
+                # (Script::from_bytes is not the identity on arbitrary bytes: it refuses some strings and shortens a truncated direct push)
+                ctors = [kw for nm, kw in getattr(r, "recorded", []) if nm == "script_ctor"]
+                for wi in tx.ins:
+                    null = z3.And(*[b == 0 for b in wi["prev_tx_id"]], wi["vout"] == 0xffffffff)
+                    sc = z3.SolverFor("QF_BV")
+                    for c in r.pc:
+                        sc.add(c)
+                    sc.add(z3.Not(null))
+                    qr.queries += 1
+                    if sc.check() != z3.unsat:
+                        continue      # not a coinbase input on this path
+                    mine = [kw for kw in ctors if kw["bytes"].get_id() == wi["script"].get_id()]
+                    if any(kw["kind"] == "tokenised" for kw in mine):
+                        coinbase_tokenised.append(r)
         s = z3.SolverFor("QF_BV")
         s.set("timeout", 60000)
         for c in r.pc:
@@ -970,5 +986,22 @@ def q_parse(env, k_in, k_out, name=None):
             qr.violations.append(item)
         else:
             qr.undecided.append(f"parse: '{bad_kind}' not reproduced natively")
+    if coinbase_tokenised:
+        # native confirmation: coinbase data that is not a well-formed script must survive parse-then-serialise byte for byte
+        msg = f"parse direction k_in={k_in} k_out={k_out}: the data of a coinbase input (null outpoint) is run through the script tokenizer instead of being kept verbatim"
+        rep, last = False, None
+        for data in ("050102", "4c", "63", "03aabbcc2f"):
+            raw = bytes.fromhex("01000000" + "01" + "00" * 32 + "ffffffff" + f"{len(data) // 2:02x}" + data + "ffffffff" + "01" + "00" * 8 + "00" + "00000000")
+            req = {"tx": {"version": 1, "locktime": 0, "inputs": [], "outputs": []}, "ops": [{"op": "from_bytes", "bytes": raw.hex()}, {"op": "to_bytes"}]}
+            nat = {p_: C.Native.run(req, p_) for p_ in ("debug", "release")}
+            last = (req, nat)
+            if any(len(v) < 2 or v[1].get("ok") != raw.hex() for v in nat.values()):
+                rep = True
+                break
+        item = {"message": msg, "request": last[0], "op_index": 1, "expected": last[0]["ops"][0]["bytes"], "native": {k: v[-1] for k, v in last[1].items()}}
+        if rep:
+            qr.violations.append(item)
+        else:
+            qr.undecided.append(msg + " — not reproduced natively")
     finish(qr, ex)
     return qr
